@@ -68,6 +68,7 @@ def gen(rng):
     s["nB"] = rng.choice([0, 0, rng.randint(14, 20)])
     s["nD"] = rng.choice([0, 0, rng.randint(12, 18)])      # dimers A-B with a bond
     s["nT"] = rng.choice([0, 0, rng.randint(20, 28)])      # trimers A-B-A with two bonds and an angle
+    s["nQ"] = rng.choice([0, 0, 0, rng.randint(30, 40)])   # tetramers A-B-B-A with three bonds, two angles and a dihedral
     s["frames"] = rng.randint(2, 6)
     s["fpb"] = rng.choice([1, 1, 2, 3])
     s["fpb"] = min(s["fpb"], s["frames"])
@@ -78,22 +79,27 @@ def gen(rng):
     step = rng.choice([0.1, 0.125, 0.2])
     mx = 1.0
     mn = 0.2 if step != 0.125 else 0.25
-    types_present = ["A"] + (["B"] if (s["nB"] or s["nD"] or s["nT"]) else [])
-    pairs = [("A", "A")] + ([("A", "B")] if "B" in types_present and (s["nD"] or s["nT"] or rng.random() < 0.7) else []) + ([("B", "B")] if "B" in types_present and rng.random() < 0.4 else [])
+    types_present = ["A"] + (["B"] if (s["nB"] or s["nD"] or s["nT"] or s["nQ"]) else [])
+    pairs = [("A", "A")] + ([("A", "B")] if "B" in types_present and (s["nD"] or s["nT"] or s["nQ"] or rng.random() < 0.7) else []) + ([("B", "B")] if "B" in types_present and (s["nQ"] or rng.random() < 0.4) else [])
     for (t1, t2) in pairs:
         xs = grid(mn, mx, step)
         fs = [round(rng.uniform(-50, 120) * (1 - k / len(xs)), 3) for k in range(len(xs))]
         inter.append(dict(name="%s-%s" % (t1, t2), bonded=False, t1=t1, t2=t2, min=mn, max=mx, step=step, xs=xs, fs=fs, f2=natural_f2(xs, fs)))
-    if s["nD"] or s["nT"]:
+    if s["nD"] or s["nT"] or s["nQ"]:
         xs = grid(0.1, 0.5, 0.1)
         fs = [round(rng.uniform(-300, 300), 2) for _ in xs]
         inter.append(dict(name="bond", bonded=True, angle=False, t1="", t2="", min=0.1, max=0.5, step=0.1, xs=xs, fs=fs, f2=natural_f2(xs, fs)))
-    if s["nT"]:
+    if s["nT"] or s["nQ"]:
         xs = grid(1.0, 3.0, 0.5)
         fs = [round(rng.uniform(-80, 80), 2) for _ in xs]
         inter.append(dict(name="angle", bonded=True, angle=True, t1="", t2="", min=1.0, max=3.0, step=0.5, xs=xs, fs=fs, f2=natural_f2(xs, fs)))
+    if s["nQ"]:
+        xs = grid(-3.2, 3.2, 0.8)
+        fs = [round(rng.uniform(-40, 40), 2) for _ in xs]
+        inter.append(dict(name="dihedral", bonded=True, angle=False, dihedral=True, t1="", t2="", min=-3.2, max=3.2, step=0.8, xs=xs, fs=fs, f2=natural_f2(xs, fs)))
     for it in inter:
         it.setdefault("angle", False)
+        it.setdefault("dihedral", False)
     s["inter"] = inter
     # beads: A..., B..., dimers (A then B)
     types = ["A"] * s["nA"] + ["B"] * s["nB"]
@@ -111,7 +117,15 @@ def gen(rng):
         mols += [max(mols) + 1 if mols else 0] * 3
         bonds += [(i, i + 1), (i + 1, i + 2)]
         angles.append((i, i + 1, i + 2))
-    s["types"], s["mols"], s["bonds"], s["angles"] = types, mols, bonds, angles
+    dihedrals = []
+    for t in range(s["nQ"]):
+        i = len(types)
+        types += ["A", "B", "B", "A"]
+        mols += [max(mols) + 1 if mols else 0] * 4
+        bonds += [(i, i + 1), (i + 1, i + 2), (i + 2, i + 3)]
+        angles += [(i, i + 1, i + 2), (i + 1, i + 2, i + 3)]
+        dihedrals.append((i, i + 1, i + 2, i + 3))
+    s["types"], s["mols"], s["bonds"], s["angles"], s["dihedrals"] = types, mols, bonds, angles, dihedrals
     n = len(types)
     s["pos"] = []
     for f in range(s["frames"]):
@@ -123,7 +137,24 @@ def gen(rng):
             i = len(pts)
             partner = [b for b in bonds if b[1] == i]
             tri = [a for a in angles if a[2] == i]
-            if tri:
+            quad = [d4 for d4 in dihedrals if d4[3] == i]
+            if quad:
+                # fourth bead of a tetramer: bond angle and dihedral drawn away from the singular geometries (sin = 0)
+                p0, p1, p2 = pts[quad[0][0]], pts[quad[0][1]], pts[quad[0][2]]
+                bc = [p2[k] - p1[k] for k in range(3)]
+                nb = math.sqrt(sum(c * c for c in bc))
+                bc = [c / nb for c in bc]
+                ab = [p1[k] - p0[k] for k in range(3)]
+                nn = cross(ab, bc)
+                nl = math.sqrt(sum(c * c for c in nn)) or 1.0
+                nn = [c / nl for c in nn]
+                mm = cross(nn, bc)
+                th = rng.uniform(1.05, 2.95)
+                ph = rng.uniform(0.2, 2.94) * rng.choice([-1, 1])
+                l = rng.uniform(1.3, 4.7)
+                d2 = [-l * math.cos(th), l * math.sin(th) * math.cos(ph), l * math.sin(th) * math.sin(ph)]
+                p = [round(p2[k] + d2[0] * bc[k] + d2[1] * mm[k] + d2[2] * nn[k], 4) for k in range(3)]
+            elif tri:
                 # third bead of a trimer: at an angle drawn uniformly from the angle grid, seen from the middle bead
                 q, q0 = pts[tri[0][1]], pts[tri[0][0]]
                 e1 = [q0[k] - q[k] for k in range(3)]
@@ -156,7 +187,7 @@ def gen(rng):
             for j, q in enumerate(pts):
                 d = [(p[k] - q[k]) - 10 * L * round((p[k] - q[k]) / (10 * L)) for k in range(3)]
                 dist = math.sqrt(sum(c * c for c in d))
-                if dist < 10 * mn + 0.3 and not (partner and partner[0][0] == j) and not (tri and j in tri[0]):
+                if dist < 10 * mn + 0.3 and mols[i] != mols[j]:
                     ok = False
                     break
             if ok:
@@ -167,15 +198,67 @@ def gen(rng):
     return s
 
 
+def cross(a, b):
+    return [a[1] * b[2] - a[2] * b[1], a[2] * b[0] - a[0] * b[2], a[0] * b[1] - a[1] * b[0]]
+
+
+def dot(a, b):
+    return a[0] * b[0] + a[1] * b[1] + a[2] * b[2]
+
+
+def dihedral_value_grad(P4, L):
+    """signed dihedral angle of four points and its gradient with respect to each of them (orthorhombic minimum image):
+    phi = sign(v1.n2) acos(n1.n2 / |n1||n2|), n1 = v1 x v2, n2 = v2 x v3; d/dx acos(c) = -1/sin"""
+    def conn(a, b):
+        d = [b[k] - a[k] for k in range(3)]
+        return [c - L * round(c / L) for c in d]
+    v1, v2, v3 = conn(P4[0], P4[1]), conn(P4[1], P4[2]), conn(P4[2], P4[3])
+    n1, n2 = cross(v1, v2), cross(v2, v3)
+    m1, m2 = math.sqrt(dot(n1, n1)), math.sqrt(dot(n2, n2))
+    c = dot(n1, n2)
+    cc = max(-1.0, min(1.0, c / (m1 * m2)))
+    sign = -1.0 if dot(v1, n2) < 0 else 1.0
+    phi = sign * math.acos(cc)
+    sn = math.sqrt(1 - cc * cc)
+    f = sign * (-1.0 / sn)
+    add = lambda a, b: [a[k] + b[k] for k in range(3)]
+    grads = []
+    for bead in range(4):
+        g = []
+        for ax in range(3):
+            e = [1.0 if k == ax else 0.0 for k in range(3)]
+            if bead == 0:
+                comp = dot(n2, cross(v2, e)) / (m1 * m2) - c * dot(n1, cross(v2, e)) / (m2 * m1 ** 3)
+            elif bead == 1:
+                comp = (dot(n1, cross(v3, e)) + dot(n2, add(cross(e, v1), cross(e, v2)))) / (m1 * m2) - c * (
+                    dot(n1, add(cross(e, v1), cross(e, v2))) / (m2 * m1 ** 3) + dot(n2, cross(v3, e)) / (m1 * m2 ** 3))
+            elif bead == 2:
+                comp = (dot(n1, add(cross(e, v2), cross(e, v3))) + dot(n2, cross(v1, e))) / (m1 * m2) - c * (
+                    dot(n1, cross(v1, e)) / (m2 * m1 ** 3) + dot(n2, add(cross(e, v2), cross(e, v3))) / (m1 * m2 ** 3))
+            else:
+                comp = dot(n1, cross(v2, e)) / (m1 * m2) - c * dot(n2, cross(v2, e)) / (m1 * m2 ** 3)
+            g.append(f * comp)
+        grads.append(g)
+    return phi, grads
+
+
 def forces(s, f):
     """reference forces (kJ/mol/nm) on the positions as csg reads them (nm = Angstrom value * 0.1)"""
     L = s["L"]
     pos = [[c * ANG2NM for c in p] for p in s["pos"][f]]
     n = len(pos)
     F = [[0.0] * 3 for _ in range(n)]
-    bonded_pairs = set(s["bonds"]) | set((a[0], a[2]) for a in s["angles"])
+    bonded_pairs = set(s["bonds"]) | set((a[0], a[2]) for a in s["angles"]) | set((d[0], d[3]) for d in s["dihedrals"])
     for it in s["inter"]:
-        if it["angle"]:
+        if it["dihedral"]:
+            for quad in s["dihedrals"]:
+                P4 = [pos[q] for q in quad]
+                phi, grads = dihedral_value_grad(P4, L)
+                S = spline_eval(it["xs"], it["fs"], it["f2"], phi)
+                for b, q in enumerate(quad):
+                    for k in range(3):
+                        F[q][k] -= S * grads[b][k]
+        elif it["angle"]:
             for (i, j, k3) in s["angles"]:
                 u = [pos[i][k] - pos[j][k] for k in range(3)]
                 w = [pos[k3][k] - pos[j][k] for k in range(3)]
@@ -234,11 +317,14 @@ def write_inputs(s, d):
             f.write('  <molecule name="MD" nmols="%d" nbeads="2"><bead name="a" type="A" mass="1.0" q="0"/><bead name="b" type="B" mass="1.0" q="0"/></molecule>\n' % s["nD"])
         if s["nT"]:
             f.write('  <molecule name="MT" nmols="%d" nbeads="3"><bead name="a1" type="A" mass="1.0" q="0"/><bead name="b" type="B" mass="1.0" q="0"/><bead name="a2" type="A" mass="1.0" q="0"/></molecule>\n' % s["nT"])
+        if s["nQ"]:
+            f.write('  <molecule name="MQ" nmols="%d" nbeads="4"><bead name="a1" type="A" mass="1.0" q="0"/><bead name="b1" type="B" mass="1.0" q="0"/><bead name="b2" type="B" mass="1.0" q="0"/><bead name="a2" type="A" mass="1.0" q="0"/></molecule>\n' % s["nQ"])
         f.write(" </molecules>\n</topology>\n")
     maps = []
     for (mname, beads, bonded) in (("MA", [("a", "A")], False), ("MB", [("b", "B")], False), ("MD", [("a", "A"), ("b", "B")], True),
-                                   ("MT", [("a1", "A"), ("b", "B"), ("a2", "A")], True)):
-        if (mname == "MA" and not s["nA"]) or (mname == "MB" and not s["nB"]) or (mname == "MD" and not s["nD"]) or (mname == "MT" and not s["nT"]):
+                                   ("MT", [("a1", "A"), ("b", "B"), ("a2", "A")], True),
+                                   ("MQ", [("a1", "A"), ("b1", "B"), ("b2", "B"), ("a2", "A")], True)):
+        if (mname == "MA" and not s["nA"]) or (mname == "MB" and not s["nB"]) or (mname == "MD" and not s["nD"]) or (mname == "MT" and not s["nT"]) or (mname == "MQ" and not s["nQ"]):
             continue
         fn = mname.lower() + ".xml"
         maps.append(fn)
@@ -249,6 +335,9 @@ def write_inputs(s, d):
             f.write("  </cg_beads>\n")
             if bonded and mname == "MD":
                 f.write("  <cg_bonded><bond><name>bond</name><beads>A B</beads></bond></cg_bonded>\n")
+            if bonded and mname == "MQ":
+                f.write("  <cg_bonded><bond><name>bond</name><beads>A1 B1\nB1 B2\nB2 A2</beads></bond><angle><name>angle</name><beads>A1 B1 B2\nB1 B2 A2</beads></angle>"
+                        "<dihedral><name>dihedral</name><beads>A1 B1 B2 A2</beads></dihedral></cg_bonded>\n")
             if bonded and mname == "MT":
                 f.write("  <cg_bonded><bond><name>bond</name><beads>A1 B\nB A2</beads></bond><angle><name>angle</name><beads>A1 B A2</beads></angle></cg_bonded>\n")
             f.write(" </topology>\n <maps><map><name>U</name><weights>1</weights></map></maps>\n</cg_molecule>\n")
@@ -290,9 +379,10 @@ def run_one(exe, s):
         out.append(" ".join("%d %d" % (0 if t == "A" else 1, m) for t, m in zip(s["types"], s["mols"])))
         out.append("%d %s" % (len(s["bonds"]), " ".join("%d %d" % b for b in s["bonds"])))
         out.append("%d %s" % (len(s["angles"]), " ".join("%d %d %d" % a for a in s["angles"])))
+        out.append("%d %s" % (len(s["dihedrals"]), " ".join("%d %d %d %d" % d4 for d4 in s["dihedrals"])))
         out.append(str(len(s["inter"])))
         for it in s["inter"]:
-            out.append("%d %d %d %s %s %s %d %s" % (2 if it["angle"] else 1 if it["bonded"] else 0, 0 if it["t1"] == "A" else 1, 0 if it["t2"] == "A" else 1,
+            out.append("%d %d %d %s %s %s %d %s" % (3 if it["dihedral"] else 2 if it["angle"] else 1 if it["bonded"] else 0, 0 if it["t1"] == "A" else 1, 0 if it["t2"] == "A" else 1,
                                                    me(it["min"]), me(it["max"]), me(it["step"]), len(it["xs"]), " ".join(me(v) for v in it["fs"])))
         for fr in range(s["frames"]):
             for i in range(n):
@@ -306,6 +396,8 @@ def run_one(exe, s):
                 w = [c - s["L"] * round(c / s["L"]) for c in w]
                 c = sum(u[k] * w[k] for k in range(3)) / math.sqrt(sum(x * x for x in u) * sum(x * x for x in w))
                 out.append(me(math.acos(max(-1.0, min(1.0, c)))))
+            for quad in s["dihedrals"]:
+                out.append(me(dihedral_value_grad([P[q] for q in quad], s["L"])[0]))
         tabs = []
         for k, it in enumerate(s["inter"]):
             p = os.path.join(d, it["name"] + ".force")
